@@ -75,9 +75,9 @@ def jobs(prop, tier):
         return [SM("sync_faults"), SM("sync_faults_sc"), SM("sync_faults_late"), SE("sync_faults_edge", 2, rate=0.05),
                 SE("sync_faults_sc_edge", 2, rate=0.05), SE("sync_faults_late_edge", 2, rate=0.05), SS("sync_faults_sim", 3, 800, 80)]
     if prop == "C13":
-        ent = ["sync_entry_t1", "sync_entry_t2", "sync_entry_t3", "sync_entry_cc", "sync_entry_ss"]
+        ent = ["sync_entry_t1", "sync_entry_t2", "sync_entry_t3", "sync_entry_cc", "sync_entry_ss", "sync_entry_pre"]
         if q:
-            return [SE(c + "_edge", 2) for c in ent] + [SE("sync_sc_edge", 2, rate=0.05), SE("sync_3_edge", 3, rate=0.002)]
+            return [SE(c + "_edge", 2, rate=(0.1 if c == "sync_entry_pre" else 1.0)) for c in ent] + [SE("sync_sc_edge", 2, rate=0.05), SE("sync_3_edge", 3, rate=0.002)]
         return [SM(c) for c in ent] + [SE(c + "_edge", 2) for c in ent] + [SE("sync_sc_edge", 2, rate=0.5), SE("sync_3_edge", 3, rate=0.03),
                                                                          SE("sync_basic_edge", 2, rate=0.3)]
     if prop == "C20":
